@@ -4,6 +4,7 @@ import (
 	"encoding/binary"
 	"fmt"
 	"io"
+	"strings"
 
 	"github.com/Eyevinn/mp4ff/bits"
 )
@@ -321,10 +322,41 @@ func DecodeBox(startPos uint64, r io.Reader) (Box, error) {
 		b, err = d(h, startPos, r)
 	}
 	if err != nil {
-		return nil, fmt.Errorf("decode %s pos %d: %w", h.Name, startPos, err)
+		return nil, &boxDecodeError{name: h.Name, pos: startPos, err: err}
 	}
 
 	return b, nil
+}
+
+// boxDecodeError adds box name and position to an error from a box decoder.
+// The text "decode <name> pos <pos>: <err>" is built when Error is called, and in one pass
+// through directly nested boxDecodeErrors, so that a failure deep inside nested boxes
+// does not build an ever longer string at every level.
+type boxDecodeError struct {
+	name string
+	pos  uint64
+	err  error
+}
+
+// Error returns the same text as fmt.Errorf("decode %s pos %d: %w", name, pos, err).
+func (e *boxDecodeError) Error() string {
+	var sb strings.Builder
+	var err error = e
+	for {
+		de, ok := err.(*boxDecodeError)
+		if !ok {
+			break
+		}
+		fmt.Fprintf(&sb, "decode %s pos %d: ", de.name, de.pos)
+		err = de.err
+	}
+	sb.WriteString(err.Error())
+	return sb.String()
+}
+
+// Unwrap returns the wrapped error.
+func (e *boxDecodeError) Unwrap() error {
+	return e.err
 }
 
 // DecodeBoxLazyMdat decodes a box but doesn't read mdat into memory
